@@ -106,6 +106,10 @@ namespace mustache {
             const size_t size = end - begin;
             if (task_count < 1u) {
                 task_count = size < threadCount() ? static_cast<uint32_t>(size) : threadCount();
+                if (task_count < 1u) {
+                    // empty range, or a dispatcher without worker threads: one task, run by the waiting caller
+                    task_count = 1u;
+                }
             }
             const size_t ept = size / task_count;
             const size_t tasks_with_extra_item = size - task_count * ept;
